@@ -93,6 +93,13 @@ Theorem C20_sealed :
   sealed traits modules reexports "tensors::operations" "Similar" "private" "Sealed" = true.
 Proof. exact sealed_similar. Qed.
 
+(* ... and the seal covers the trait's Rhs parameter too (the supertrait is written
+   private::Sealed<Rhs>, not private::Sealed = Sealed<Self>): `impl Similar<Mine> for Tensor<..>` in a
+   client crate is rejected as well (finding F14, repaired by /repo dc5faf4) *)
+Theorem C20_seal_covers_rhs :
+  seal_covers_params traits "tensors::operations" "Similar" "private" "Sealed" = true.
+Proof. exact seal_covers_rhs. Qed.
+
 (* the five marker traits are `unsafe trait`s: implementing them needs `unsafe impl` *)
 Theorem C20_unsafe_markers : forallb (is_unsafe_trait traits) unsafe_markers = true.
 Proof. exact markers_unsafe. Qed.
@@ -136,5 +143,6 @@ Print Assumptions C20_owning_types_lifetime_free.
 Print Assumptions C20_translation_closed.
 Print Assumptions C20_no_marker_impls.
 Print Assumptions C20_sealed.
+Print Assumptions C20_seal_covers_rhs.
 Print Assumptions C20_unsafe_markers.
 Print Assumptions C20_fuel_stable.
